@@ -41,6 +41,8 @@ def ensure_hypothesis():
         return
     except ImportError:
         _pip_target("hypothesis", "sortedcontainers", "attrs")
+        import importlib
+        importlib.invalidate_caches()
     import hypothesis  # noqa: F401
 
 
@@ -59,6 +61,8 @@ def try_atheris():
     except ImportError:
         try:
             _pip_target("atheris")
+            import importlib
+            importlib.invalidate_caches()
             import atheris
             return atheris
         except Exception:  # pylint: disable=broad-except
